@@ -144,10 +144,27 @@ theorem drop_cons_of_getElem? {α : Type} (l : List α) (n : Nat) (x : α) (h : 
   obtain ⟨hl, hx⟩ := List.getElem?_eq_some_iff.mp h
   rw [List.drop_eq_getElem_cons hl, hx]
 
-/-- the collision loop of `Get` is the model's `scan` over the items from `j` on -/
-theorem Get_loop_eq (zV : V) (h : Bytes → Nat) (m : S_StrMap V) (hI : Inv m) (s : Bytes) (slot : Int) (hs : 0 ≤ slot) :
+/-- one iteration of the collision loop of `Get`, as a function of "the rest of the loop" `rec` — the generated loop
+    function (whatever its read-only parameters are) satisfies `L (f+1) = getStep … (L f)` -/
+def getStep (m : S_StrMap V) (s : Bytes) (slot lim : Int)
+    (rec : S_mapItem V → Int → GM (LoopR (V × Bool) (S_mapItem V × Int)))
+    (e0 : S_mapItem V) (j : Int) : GM (LoopR (V × Bool) (S_mapItem V × Int)) :=
+  if j < lim then
+    (sget m.items j).bind fun e =>
+      if e.slot = slot then
+        (sslice m.data e.off (wrap .i64 (e.off + wrap .i64 e.sz))).bind fun t =>
+          if strOf t = s then .ok (.ret (e.v, true)) else rec e (wrap .i32 (j + 1))
+      else .ok (.done (e, j))
+  else .ok (.done (e0, j))
+
+/-- the collision loop of `Get` is the model's `scan` over the items from `j` on — for ANY function `L` with the step
+    equation `hstep` (the generated loop function is found by unification where this is used) -/
+theorem Get_loop_eq (m : S_StrMap V) (hI : Inv m) (s : Bytes) (slot : Int) (hs : 0 ≤ slot)
+    (lim : Int) (hlim : lim = (m.items.arr.length : Int))
+    (L : Nat → S_mapItem V → Int → GM (LoopR (V × Bool) (S_mapItem V × Int)))
+    (hstep : ∀ f e j, L (f + 1) e j = getStep m s slot lim (L f) e j) :
     ∀ (fuel : Nat) (e0 : S_mapItem V) (j : Int), 0 ≤ j → m.items.arr.length - j.toNat < fuel →
-      absScan (StrMap_Get_loop1 zV h m s slot fuel e0 j) =
+      absScan (L fuel e0 j) =
         SMap.scan m.data.arr ((m.items.arr.map absItem).drop j.toNat) slot.toNat s := by
   intro fuel
   induction fuel with
@@ -155,10 +172,8 @@ theorem Get_loop_eq (zV : V) (h : Bytes → Nat) (m : S_StrMap V) (hI : Inv m) (
   | succ fuel ih =>
     intro e0 j hj hf
     have hn := hI.nItems
-    have wl : wrap .i32 (slen m.items) = (m.items.arr.length : Int) := by
-      unfold slen; exact wrap32 _ (by omega) (by omega)
-    unfold StrMap_Get_loop1
-    rw [wl]
+    rw [hstep, hlim]
+    unfold getStep
     by_cases hlt : j < (m.items.arr.length : Int)
     · have hjl : j.toNat < m.items.arr.length := by omega
       have hg : m.items.arr[j.toNat]? = some m.items.arr[j.toNat] := List.getElem?_eq_getElem hjl
@@ -189,6 +204,23 @@ theorem Get_loop_eq (zV : V) (h : Bytes → Nat) (m : S_StrMap V) (hI : Inv m) (
         apply List.drop_eq_nil_of_le; simp; omega
       simp [hlt, hd, absScan, SMap.scan]
 
+/-- what `Get` does with the outcome of its collision loop: `return` of the hit, `return t, false` after the loop -/
+theorem Get_tail (zV : V) (m : S_StrMap V) (hI : Inv m) (s : Bytes) (slot : Int) (hs : 0 ≤ slot)
+    (lim : Int) (hlim : lim = (m.items.arr.length : Int))
+    (L : Nat → S_mapItem V → Int → GM (LoopR (V × Bool) (S_mapItem V × Int)))
+    (K : LoopR (V × Bool) (S_mapItem V × Int) → GM (V × Bool))
+    (fuel : Nat) (e0 : S_mapItem V) (j : Int) (hj : 0 ≤ j) (hf : m.items.arr.length - j.toNat < fuel)
+    (hstep : ∀ f e j, L (f + 1) e j = getStep m s slot lim (L f) e j)
+    (hK1 : ∀ x, K (LoopR.ret x) = .ok x) (hK2 : ∀ st, K (LoopR.done st) = .ok (zV, false)) :
+    liftG optOf ((L fuel e0 j).bind K) =
+      SMap.scan m.data.arr ((m.items.arr.map absItem).drop j.toNat) slot.toNat s := by
+  rw [← Get_loop_eq m hI s slot hs lim hlim L hstep fuel e0 j hj hf]
+  cases L fuel e0 j with
+  | ok r => cases r <;> simp [absScan, liftG, optOf, hK1, hK2]
+  | panic w => simp [absScan, liftG]
+  | oob => simp [absScan, liftG]
+  | err x => exact nomatch x
+
 theorem toI32_small (n : Nat) (h : n < 2147483648) : toI32 (n % SMap.two32) = (n : Int) := by
   unfold toI32 SMap.two32
   have : n % 4294967296 = n := Nat.mod_eq_of_lt (by omega)
@@ -198,17 +230,25 @@ theorem toI32_small (n : Nat) (h : n < 2147483648) : toI32 (n % SMap.two32) = (n
     exceed the number of items -/
 theorem Get_eq (zV : V) (h : Bytes → Nat) (fuel : Nat) (m : S_StrMap V) (hI : Inv m) (hf : m.items.arr.length < fuel)
     (s : Bytes) : liftG optOf (StrMap_Get zV h fuel m s) = SMap.get h (absMap m) s := by
-  unfold StrMap_Get SMap.get
   have hsz : (absMap m).ht.size = m.hashtable.arr.length := by simp [absMap]
+  have hn := hI.nItems
+  have hdata : (absMap m).data = m.data.arr := rfl
+  have hitems : (absMap m).items = m.items.arr.map absItem := rfl
+  have wlen : wrap .u32 (slen m.hashtable) = ((m.hashtable.arr.length % SMap.two32 : Nat) : Int) := by
+    rw [wrapU32]; unfold slen SMap.two32; omega
+  have wl : wrap .i32 (slen m.items) = (m.items.arr.length : Int) := by
+    unfold slen; exact wrap32 _ (by omega) (by omega)
+  unfold SMap.get
   rw [hsz]
+  -- semantic case splits first; every leaf is closed by one `simp` from facts about the primitives
   by_cases h0 : m.hashtable.arr.length = 0
-  · simp [h0, slen, liftG, optOf]
+  · have h0' : slen m.hashtable = 0 := by unfold slen; omega
+    simp [StrMap_Get, h0, h0', liftG, optOf]
   · have h0' : ¬ slen m.hashtable = 0 := by unfold slen; omega
-    have wlen : wrap .u32 (slen m.hashtable) = ((m.hashtable.arr.length % SMap.two32 : Nat) : Int) := by
-      rw [wrapU32]; unfold slen SMap.two32; omega
-    rw [wrapU32_hash, wlen]
     by_cases hz : m.hashtable.arr.length % SMap.two32 = 0
-    · simp [h0, h0', hz, goMod, liftG]
+    · have hgm : ∀ a, goMod .u32 a (wrap .u32 (slen m.hashtable)) = .panic "divzero" := by
+        intro a; rw [wlen]; simp [goMod, hz]
+      simp [StrMap_Get, h0, h0', hz, hgm, liftG]
     · have hzI : ¬ ((m.hashtable.arr.length % SMap.two32 : Nat) : Int) = 0 := by omega
       have hmod : wrap .u32 (Int.tmod ((h s % SMap.two32 : Nat) : Int) ((m.hashtable.arr.length % SMap.two32 : Nat) : Int))
           = ((h s % SMap.two32 % (m.hashtable.arr.length % SMap.two32) : Nat) : Int) := by
@@ -218,45 +258,69 @@ theorem Get_eq (zV : V) (h : Bytes → Nat) (fuel : Nat) (m : S_StrMap V) (hI : 
           have := Nat.mod_le (h s % SMap.two32) (m.hashtable.arr.length % SMap.two32)
           unfold SMap.two32 at *; omega
         rw [wrapU32_id _ (by omega) (by omega)]; rfl
-      simp only [h0, h0', hz, if_false, decide_false, goMod, hzI, hmod, Out.bind_eq, Out.bind_ok, Bool.false_eq_true]
-      generalize h s % SMap.two32 % (m.hashtable.arr.length % SMap.two32) = slot
+      have hgm : goMod .u32 (wrap .u32 (hashStr h s)) (wrap .u32 (slen m.hashtable))
+          = .ok ((h s % SMap.two32 % (m.hashtable.arr.length % SMap.two32) : Nat) : Int) := by
+        rw [wrapU32_hash, wlen]
+        simp only [goMod, hzI, if_false, hmod]
+      simp only [h0, hz, if_false]
+      generalize h s % SMap.two32 % (m.hashtable.arr.length % SMap.two32) = slot at hgm
       have hslot0 : ¬ ((slot : Nat) : Int) < 0 := by omega
       have hht : (absMap m).ht[slot]? = m.hashtable.arr[slot]? := by simp [absMap]
       rw [hht]
-      simp only [sget, hslot0, if_false, Int.toNat_natCast]
       cases hg : m.hashtable.arr[slot]? with
-      | none => simp [liftG]
+      | none =>
+        have hsg : sget m.hashtable (slot : Int) = .panic "index" := by simp [sget, hg]
+        simp [StrMap_Get, h0', hgm, hsg, liftG]
       | some i =>
+        have hsg : sget m.hashtable (slot : Int) = .ok i := by simp [sget, hg]
         by_cases hi : i < 0
-        · simp [hi, liftG, optOf]
+        · simp [StrMap_Get, h0', hgm, hsg, hi, liftG, optOf]
         · have hit : (absMap m).items[i.toNat]? = (m.items.arr[i.toNat]?).map absItem := by simp [absMap]
-          simp only [hi, if_false, decide_false, Out.bind_ok, hit, Bool.false_eq_true]
+          simp only [hi, if_false, hit]
           cases hge : m.items.arr[i.toNat]? with
-          | none => simp [liftG]
+          | none =>
+            have hsi : sget m.items i = .panic "index" := by simp [sget, hi, hge]
+            simp [StrMap_Get, h0', hgm, hsg, hi, hsi, liftG]
           | some e =>
+            have hsi : sget m.items i = .ok e := by simp [sget, hi, hge]
             have he := hI.items e (List.mem_of_getElem? hge)
             have hil : i.toNat < m.items.arr.length := (List.getElem?_eq_some_iff.mp hge).1
-            have hn := hI.nItems
-            have hdata : (absMap m).data = m.data.arr := rfl
             rcases key_eq m.data e he with ⟨t, h1, h2⟩ | ⟨h1, h2⟩
             · by_cases hk : strOf t = s
-              · simp [h1, h2, hk, hdata, liftG, optOf]; rfl
+              · simp [StrMap_Get, h0', hgm, hsg, hi, hsi, h1, h2, hk, hdata, liftG, optOf]; rfl
               · have wj : wrap .i32 (i + 1) = i + 1 := wrap32 _ (by omega) (by omega)
-                have hloop := Get_loop_eq zV h m hI s (slot : Int) (by omega) fuel e (i + 1) (by omega) (by omega)
                 have hj1 : (i + 1).toNat = i.toNat + 1 := by omega
                 have hlim : toI32 ((List.map absItem m.items.arr).length % SMap.two32) = (m.items.arr.length : Int) := by
                   rw [List.length_map]; exact toI32_small _ hn
-                have hitems : (absMap m).items = m.items.arr.map absItem := rfl
-                rw [hj1, Int.toNat_natCast] at hloop
-                simp only [Option.map_some, h1, h2, hk, hdata, wj, Out.bind_ok, decide_false, if_false,
-                  hitems, Bool.false_eq_true]
-                rw [hlim, Int.toNat_natCast, List.take_of_length_le (by simp), ← hloop]
-                cases StrMap_Get_loop1 zV h m s (slot : Int) fuel e (i + 1) with
-                | ok r => cases r <;> simp [absScan, liftG, optOf]
-                | panic w => simp [absScan, liftG]
-                | oob => simp [absScan, liftG]
-                | err x => exact nomatch x
-            · simp [h1, h2, hdata, liftG]
+                simp only [Option.map_some, h2, hk, hdata, if_false, hitems]
+                rw [hlim, Int.toNat_natCast, List.take_of_length_le (by simp), ← hj1, ← Int.toNat_natCast slot]
+                generalize hR : SMap.scan m.data.arr _ _ s = R
+                simp [StrMap_Get, h0', hgm, hsg, hi, hsi, h1, hk, wj]
+                rw [← hR]
+                apply Get_tail zV m hI s (slot : Int) (by omega) (wrap .i32 (slen m.items)) wl
+                · omega
+                · omega
+                · -- the generated loop function satisfies the step equation, in whatever shape it was written
+                  intro f e0 j
+                  by_cases hc : j < wrap .i32 (slen m.items)
+                  · cases hsj : sget m.items j with
+                    | ok e' =>
+                      by_cases hsl : e'.slot = (slot : Int)
+                      · cases hss : sslice m.data e'.off (wrap .i64 (e'.off + wrap .i64 e'.sz)) with
+                        | ok t' =>
+                          by_cases hk' : strOf t' = s <;>
+                            simp [StrMap_Get_loop1, getStep, hc, hsj, hsl, hss, hk']
+                        | panic w => simp [StrMap_Get_loop1, getStep, hc, hsj, hsl, hss]
+                        | oob => simp [StrMap_Get_loop1, getStep, hc, hsj, hsl, hss]
+                        | err x => exact nomatch x
+                      · simp [StrMap_Get_loop1, getStep, hc, hsj, hsl]
+                    | panic w => simp [StrMap_Get_loop1, getStep, hc, hsj]
+                    | oob => simp [StrMap_Get_loop1, getStep, hc, hsj]
+                    | err x => exact nomatch x
+                  · simp [StrMap_Get_loop1, getStep, hc]
+                · intro x; rfl
+                · intro st; rfl
+            · simp [StrMap_Get, h0', hgm, hsg, hi, hsi, h1, h2, hdata, liftG]
 
 /-! ## calcHashtableSlots (utils.go) -/
 
@@ -273,11 +337,11 @@ theorem bitsLen64_nat (k : Nat) : bitsLen64 (k : Int) = ((SMap.bitLen k : Nat) :
 theorem calcSlots_cases (n : Nat) :
     (∃ p : Nat, calcHashtableSlots (n : Int) = .ok (p : Int) ∧ SMap.calcSlots n = .ok p ∧ 0 < p ∧ p < 2147483648) ∨
     (∃ w, calcHashtableSlots (n : Int) = .panic w ∧ SMap.calcSlots n = .panic w) := by
-  unfold calcHashtableSlots SMap.calcSlots
   have e1 : f64DivToU64 (n : Int) 3 4 = ((SMap.scaled n : Nat) : Int) := by
     simp [f64DivToU64, SMap.scaled, Facts.loadfactorDen, Facts.loadfactorNum]
   have hl : Facts.bits2primes.length = 32 := by decide
-  rw [e1, bitsLen64_nat, tbl_eq, hl]
+  -- `simp only` also substitutes the `let`s of a hoisted sub-expression
+  simp only [calcHashtableSlots, SMap.calcSlots, e1, bitsLen64_nat, tbl_eq, hl]
   generalize SMap.bitLen (SMap.scaled n) = b
   by_cases hb : b ≥ 32
   · right
@@ -331,102 +395,406 @@ theorem sset_append (m : Sl α) (pre rest : List α) (e e' : α) (h : m.arr = pr
     unfold slen; rw [h]; simp; omega
   simp [sset, this, h]
 
-/-- first loop: `items[i].slot = items[i].slot % uint32(slots)` for every item -/
-theorem mh_loop1 (zV : V) (sorter : List (S_mapItem V) → List (S_mapItem V)) (fuel : Nat) (S : Nat)
-    (hS0 : 0 < S) (hS1 : S < 4294967296) :
-    ∀ (rest pre : List (S_mapItem V)) (m : S_StrMap V), m.items.arr = pre ++ rest → (∀ e ∈ rest, 0 ≤ e.slot) →
-      StrMap_makeHashtable_loop1 zV sorter fuel (S : Int) rest (pre.length : Int) m =
+/-- `s[i] = v` succeeds wherever `s[i]` does -/
+theorem sset_of_sget (s : Sl α) (i : Int) (e v : α) (h : sget s i = .ok e) :
+    sset s i v = .ok { s with arr := s.arr.set i.toNat v } := by
+  unfold sget at h
+  by_cases hi : i < 0
+  · simp [hi] at h
+  · simp only [hi, if_false] at h
+    cases hg : s.arr[i.toNat]? with
+    | none => simp [hg] at h
+    | some x =>
+      have hl : i.toNat < s.arr.length := (List.getElem?_eq_some_iff.mp hg).1
+      have : ¬ (i < 0 ∨ i ≥ slen s) := by unfold slen; omega
+      simp [sset, this]
+
+/-- first loop: `items[i].slot = items[i].slot % uint32(slots)` for every item — for ANY function `L` that, on a
+    non-empty rest, stores the reduced slot into item `i` and goes on with `i+1` -/
+theorem mh_loop1 (S : Nat) (L : List (S_mapItem V) → Int → S_StrMap V → GM (S_StrMap V))
+    (hnil : ∀ i m, L [] i m = .ok m)
+    (hcons : ∀ x rest (i : Int) m e, sget m.items i = .ok e → 0 ≤ e.slot →
+      L (x :: rest) i m =
+        L rest (i + 1) { m with items := { m.items with arr := m.items.arr.set i.toNat { e with slot := e.slot % (S : Int) } } }) :
+    ∀ (rest pre : List (S_mapItem V)) (i : Int) (m : S_StrMap V), i = (pre.length : Int) → m.items.arr = pre ++ rest →
+      (∀ e ∈ rest, 0 ≤ e.slot) →
+      L rest i m =
         .ok { m with items := { m.items with arr := pre ++ rest.map (fun e => { e with slot := e.slot % (S : Int) }) } } := by
   intro rest
   induction rest with
-  | nil => intro pre m h _; simp [StrMap_makeHashtable_loop1, ← h]
+  | nil => intro pre i m _ h _; simp [hnil, ← h]
   | cons e rest ih =>
-    intro pre m h hs
+    intro pre i m hi h hs
     have he : 0 ≤ e.slot := hs e (by simp)
-    unfold StrMap_makeHashtable_loop1
-    have wS : wrap .u32 (S : Int) = (S : Int) := wrapU32_id _ (by omega) (by omega)
-    have hS : ¬ ((S : Nat) : Int) = 0 := by omega
-    have hm : wrap .u32 (Int.tmod e.slot (S : Int)) = e.slot % (S : Int) := by
-      rw [Int.tmod_eq_emod_of_nonneg he]
-      have := Int.emod_lt_of_pos e.slot (show (0 : Int) < (S : Int) by omega)
-      have := Int.emod_nonneg e.slot hS
-      exact wrapU32_id _ (by omega) (by omega)
-    have hc : ((pre.length : Nat) : Int) + 1 = (((pre ++ [({ e with slot := e.slot % (S : Int) } : S_mapItem V)]).length : Nat) : Int) := by
-      simp
-    simp only [sget_append m.items pre rest e h, sset_append m.items pre rest e _ h, Out.bind_eq, Out.bind_ok, goMod, wS, hS,
-      if_false, hm]
-    rw [hc, ih _ _ (by simp) (fun x hx => hs x (by simp [hx]))]
+    subst hi
+    rw [hcons e rest _ m e (sget_append m.items pre rest e h) he]
+    rw [ih (pre ++ [({ e with slot := e.slot % (S : Int) } : S_mapItem V)]) _ _ (by simp) (by simp [h])
+      (fun x hx => hs x (by simp [hx]))]
     simp
 
-/-- second loop: `hashtable[i] = -1` for every cell -/
-theorem mh_loop2 (zV : V) (sorter : List (S_mapItem V) → List (S_mapItem V)) :
-    ∀ (fuel : Nat) (tail : List Int) (k : Nat) (m : S_StrMap V),
+/-- second loop: `hashtable[i] = -1` for every cell — for ANY function `L` that stores -1 at `i` and goes on with
+    `i+1` while `i < lim`, `lim` being the length of the table (read every time round or hoisted) -/
+theorem mh_loop2 (lim : Int) (L : Nat → S_StrMap V → Int → GM (S_StrMap V × Int))
+    (hlt : ∀ f m (i : Int), slen m.hashtable = lim → 0 ≤ i → i < lim → i < 4611686018427387904 →
+      L (f + 1) m i = L f { m with hashtable := { m.hashtable with arr := m.hashtable.arr.set i.toNat (-1) } } (i + 1))
+    (hge : ∀ f m (i : Int), slen m.hashtable = lim → ¬ i < lim → L (f + 1) m i = .ok (m, i)) :
+    ∀ (fuel : Nat) (tail : List Int) (k : Nat) (m : S_StrMap V) (i0 : Int), i0 = (k : Int) → slen m.hashtable = lim →
       m.hashtable.arr = List.replicate k (-1) ++ tail → tail.length < fuel → k + tail.length < 4611686018427387904 →
-      StrMap_makeHashtable_loop2 zV sorter fuel m (k : Int) =
+      L fuel m i0 =
         .ok ({ m with hashtable := { m.hashtable with arr := List.replicate (k + tail.length) (-1) } },
              ((k + tail.length : Nat) : Int)) := by
   intro fuel
   induction fuel with
-  | zero => intro tail k m _ hf; omega
+  | zero => intro tail k m _ _ _ _ hf; omega
   | succ fuel ih =>
-    intro tail k m h hf hb
-    unfold StrMap_makeHashtable_loop2
+    intro tail k m i0 hi0 hl h hf hb
+    subst hi0
     cases tail with
     | nil =>
-      have : ¬ ((k : Nat) : Int) < slen m.hashtable := by unfold slen; rw [h]; simp
+      have : ¬ ((k : Nat) : Int) < lim := by rw [← hl]; unfold slen; rw [h]; simp
       have h' : List.replicate k (-1 : Int) = m.hashtable.arr := by simpa using h.symm
-      simp [this, h']
+      rw [hge fuel m _ hl this]
+      simp [h']
     | cons x tail =>
-      have hlt : ((k : Nat) : Int) < slen m.hashtable := by unfold slen; rw [h]; simp; omega
-      have hk : k = (List.replicate k (-1 : Int)).length := by simp
-      have hset := sset_append m.hashtable (List.replicate k (-1)) tail x (-1) h
-      rw [← hk] at hset
-      have w : wrap .i64 ((k : Int) + 1) = ((k + 1 : Nat) : Int) := by
-        rw [wrap64 _ (by omega) (by simp at hb; omega)]; simp
-      simp only [hlt, decide_true, if_true, hset, Out.bind_eq, Out.bind_ok, w]
-      rw [ih tail (k + 1) _ (by simp [List.replicate_succ']) (by simp at hf; omega) (by simp at hb ⊢; omega)]
-      simp; try omega
+      have hlt' : ((k : Nat) : Int) < lim := by rw [← hl]; unfold slen; rw [h]; simp; omega
+      rw [hlt fuel m _ hl (by omega) hlt' (by simp at hb; omega)]
+      have hset : m.hashtable.arr.set ((k : Nat) : Int).toNat (-1) = List.replicate (k + 1) (-1) ++ tail := by
+        rw [h]; simp [List.replicate_succ']
+      have hc : ((k : Nat) : Int) + 1 = ((k + 1 : Nat) : Int) := by simp
+      rw [hset, hc, ih tail (k + 1) _ _ rfl (by rw [← hl]; unfold slen; rw [h]; simp; omega) rfl (by simp at hf; omega)
+        (by simp at hb ⊢; omega)]
+      have e1 : k + 1 + tail.length = k + (x :: tail).length := by simp; omega
+      rw [e1]
 
-/-- third loop: the model's `fillFirst` on the hashtable; nothing else changes -/
-theorem mh_loop3 (zV : V) (sorter : List (S_mapItem V) → List (S_mapItem V)) (fuel : Nat) :
-    ∀ (rest pre : List (S_mapItem V)) (m : S_StrMap V), m.items.arr = pre ++ rest → (∀ e ∈ rest, 0 ≤ e.slot) →
-      liftG (fun m' => m'.hashtable.arr.toArray) (StrMap_makeHashtable_loop3 zV sorter fuel rest (pre.length : Int) m) =
+/-- third loop: the model's `fillFirst` on the hashtable; nothing else changes — for ANY function `L` that, on a
+    non-empty rest, reads item `i`, looks at `hashtable[e.slot]` and stores `int32(i)` there when it is negative -/
+theorem mh_loop3 (L : List (S_mapItem V) → Int → S_StrMap V → GM (S_StrMap V))
+    (hnil : ∀ i m, L [] i m = .ok m)
+    (hcons : ∀ x rest (i : Int) m e, sget m.items i = .ok e → 0 ≤ e.slot →
+      L (x :: rest) i m =
+        (sget m.hashtable e.slot).bind fun c =>
+          if c < 0 then
+            L rest (i + 1) { m with hashtable := { m.hashtable with arr := m.hashtable.arr.set e.slot.toNat (wrap .i32 i) } }
+          else L rest (i + 1) m) :
+    ∀ (rest pre : List (S_mapItem V)) (i : Int) (m : S_StrMap V), i = (pre.length : Int) → m.items.arr = pre ++ rest →
+      (∀ e ∈ rest, 0 ≤ e.slot) →
+      liftG (fun m' => m'.hashtable.arr.toArray) (L rest i m) =
         SMap.fillFirst (rest.map absItem) pre.length m.hashtable.arr.toArray ∧
-      ∀ m', StrMap_makeHashtable_loop3 zV sorter fuel rest (pre.length : Int) m = .ok m' →
+      ∀ m', L rest i m = .ok m' →
         m'.items = m.items ∧ m'.data = m.data ∧ m'.hashtable.spare = m.hashtable.spare := by
   intro rest
   induction rest with
-  | nil => intro pre m _ _; simp [StrMap_makeHashtable_loop3, SMap.fillFirst, liftG]
+  | nil => intro pre i m _ _ _; simp [hnil, SMap.fillFirst, liftG]
   | cons e rest ih =>
-    intro pre m h hs
+    intro pre i m hi h hs
+    subst hi
     have he : 0 ≤ e.slot := hs e (by simp)
     have he' : ¬ e.slot < 0 := by omega
-    unfold StrMap_makeHashtable_loop3 SMap.fillFirst
+    rw [hcons e rest _ m e (sget_append m.items pre rest e h) he]
+    unfold SMap.fillFirst
     have hc : ((pre.length : Nat) : Int) + 1 = (((pre ++ [e]).length : Nat) : Int) := by simp
     have hl : pre.length + 1 = (pre ++ [e]).length := by simp
-    simp only [sget_append m.items pre rest e h, Out.bind_eq, Out.bind_ok, List.map_cons]
+    simp only [List.map_cons]
     have hslot : (absItem e).slot = e.slot.toNat := rfl
     rw [hslot, List.getElem?_toArray]
     simp only [sget, he', if_false]
     cases hg : m.hashtable.arr[e.slot.toNat]? with
     | none => simp [liftG]
     | some x =>
-      have hlen : e.slot.toNat < m.hashtable.arr.length := (List.getElem?_eq_some_iff.mp hg).1
       by_cases hx : x < 0
-      · have hin : ¬ (e.slot < 0 ∨ e.slot ≥ slen m.hashtable) := by unfold slen; omega
-        simp only [hx, decide_true, if_true, sset, hin, if_false, Out.bind_ok, Out.pure_eq]
-        have := ih (pre ++ [e]) { m with hashtable := { m.hashtable with arr := m.hashtable.arr.set e.slot.toNat (wrap .i32 (pre.length : Int)) } }
-          (by simp [h]) (fun y hy => hs y (by simp [hy]))
+      · simp only [hx, if_true, Out.bind_ok]
+        have := ih (pre ++ [e]) _ { m with hashtable := { m.hashtable with arr := m.hashtable.arr.set e.slot.toNat (wrap .i32 (pre.length : Int)) } }
+          hc (by simp [h]) (fun y hy => hs y (by simp [hy]))
         rw [wrapI32_nat] at this
-        rw [hc, hl, wrapI32_nat]
+        rw [hl, wrapI32_nat]
         simpa using this
-      · simp only [hx, decide_false, if_false, Out.bind_ok, Out.pure_eq, Bool.false_eq_true]
-        have := ih (pre ++ [e]) m (by simp [h]) (fun y hy => hs y (by simp [hy]))
-        rw [hc, hl]
+      · simp only [hx, if_false, Out.bind_ok]
+        have := ih (pre ++ [e]) _ m hc (by simp [h]) (fun y hy => hs y (by simp [hy]))
+        rw [hl]
         exact this
 
-/-! `makeHashtable_eq` (the composition of `calcSlots_cases`, `mh_loop1`, `mh_loop2`, `mh_loop3` with the model's
-    `makeHashtable`) and `LoadFromSlice_eq` are not proved yet; the three loop lemmas above are what they need. -/
+theorem lift_bind_ok {α β γ : Type} {f : β → γ} {x : GM α} {a : α} {K : α → GM β} {R : Out SMap.LErr γ}
+    (hx : x = .ok a) (hk : liftG f (K a) = R) : liftG f (x.bind K) = R := by
+  subst hx; simpa using hk
+
+theorem absItem_mod (e : S_mapItem V) (he : 0 ≤ e.slot) (p : Nat) :
+    absItem ({ e with slot := e.slot % (p : Int) } : S_mapItem V) = { absItem e with slot := (absItem e).slot % p } := by
+  simp only [absItem]
+  congr 1
+  obtain ⟨n, hn⟩ : ∃ n : Nat, e.slot = (n : Int) := ⟨e.slot.toNat, by omega⟩
+  rw [hn]
+  simp only [Int.toNat_natCast]
+  omega
+
+/-- the model state after `fillFirst` -/
+def finishOut (d : Bytes) (its : List (SMap.Item V)) (sp : Array Int) :
+    Out SMap.LErr (Array Int) → Out SMap.LErr (SMap.StrMap V)
+  | .ok ht2 => .ok ⟨d, its, ht2, sp⟩
+  | .panic w => .panic w
+  | .err e => .err e
+  | .oob => .oob
+
+/-- what `makeHashtable` returns after its last loop, given what the loop does to the table -/
+theorem mh_finish {x : GM (S_StrMap V)} {K : S_StrMap V → GM (S_StrMap V)} (hK : ∀ a, K a = .ok a)
+    {R : Out SMap.LErr (Array Int)} {m4 : S_StrMap V}
+    (h3 : liftG (fun m' => m'.hashtable.arr.toArray) x = R ∧
+      ∀ m', x = .ok m' → m'.items = m4.items ∧ m'.data = m4.data ∧ m'.hashtable.spare = m4.hashtable.spare) :
+    liftG absMap (x.bind K) =
+      finishOut m4.data.arr (m4.items.arr.map absItem) m4.hashtable.spare.toArray R := by
+  obtain ⟨h3a, h3b⟩ := h3
+  subst h3a
+  cases x with
+  | ok m' =>
+    obtain ⟨q1, q2, q3⟩ := h3b m' rfl
+    simp [liftG, hK, absMap, q1, q2, q3, finishOut]
+  | panic w => simp [liftG, finishOut]
+  | oob => simp [liftG, finishOut]
+  | err e => exact nomatch e
+
+/-- `makeHashtable` is the model's `makeHashtable` (result, and the state when it returns normally) for every state whose
+    items carry non-negative slots, EVERY sorter; the fuel only has to exceed the number of slots -/
+theorem makeHashtable_eq (zV : V) (sorter : List (SMap.Item V) → List (SMap.Item V)) (fuel : Nat) (m : S_StrMap V)
+    (hs : ∀ e ∈ m.items.arr, 0 ≤ e.slot) (hf : ∀ p, SMap.calcSlots m.items.arr.length = .ok p → p < fuel) :
+    liftG absMap (StrMap_makeHashtable zV (liftSorter sorter) fuel m) = outOf (SMap.makeHashtable sorter (absMap m)) := by
+  have hlen : (absMap m).items.length = m.items.arr.length := by simp [absMap]
+  have hsl : slen m.items = ((m.items.arr.length : Nat) : Int) := rfl
+  rcases calcSlots_cases m.items.arr.length with ⟨p, h1, h2, hp0, hp1⟩ | ⟨w, h1, h2⟩
+  · have hfp := hf p h2
+    have wp : wrap .i64 (p : Int) = (p : Int) := wrap64 _ (by omega) (by omega)
+    have hp32 : p % SMap.two32 = p := Nat.mod_eq_of_lt (by unfold SMap.two32; omega)
+    have hpz : ¬ p = 0 := by omega
+    have hsz : ((absMap m).ht ++ (absMap m).spare).size = m.hashtable.arr.length + m.hashtable.spare.length := by
+      simp [absMap]
+    -- the re-sized table: facts about the primitives in either case
+    obtain ⟨htA, hAl, hA1, hA2, hfacts⟩ : ∃ htA : Sl Int, htA.arr.length = p ∧
+        htA.arr.toArray = (if ((absMap m).ht ++ (absMap m).spare).size < p then Array.replicate p (0 : Int)
+            else ((absMap m).ht ++ (absMap m).spare).extract 0 p) ∧
+        htA.spare.toArray = (if ((absMap m).ht ++ (absMap m).spare).size < p then #[]
+            else ((absMap m).ht ++ (absMap m).spare).extract p ((absMap m).ht ++ (absMap m).spare).size) ∧
+        ((scap m.hashtable < (p : Int) ∧ smake 0 (p : Int) (p : Int) = .ok htA) ∨
+         (¬ scap m.hashtable < (p : Int) ∧ sslice m.hashtable 0 (p : Int) = .ok htA)) := by
+      rw [hsz]
+      by_cases hc : m.hashtable.arr.length + m.hashtable.spare.length < p
+      · have hc' : scap m.hashtable < (p : Int) := by unfold scap; omega
+        have c1 : ¬ ((p : Int) < 0) := by omega
+        exact ⟨⟨List.replicate p 0, []⟩, by simp, by simp [hc], by simp [hc], Or.inl ⟨hc', by simp [smake, c1]⟩⟩
+      · have hc' : ¬ scap m.hashtable < (p : Int) := by unfold scap; omega
+        have c1 : ¬ ((p : Int) < 0 ∨ (p : Int) > scap m.hashtable) := by unfold scap; omega
+        refine ⟨⟨(m.hashtable.arr ++ m.hashtable.spare).take p, (m.hashtable.arr ++ m.hashtable.spare).drop p⟩,
+          by simp; omega, ?_, ?_, Or.inr ⟨hc', by simp [sslice, c1, Sl.mem]⟩⟩
+        · simp [hc, absMap, List.take_append]
+        · simp only [hc, absMap, if_false, List.append_toArray, List.extract_toArray, List.extract_eq_take_drop]
+          rw [List.take_of_length_le (by simp)]
+    have hitems1 : (m.items.arr.map (fun e => ({ e with slot := e.slot % (p : Int) } : S_mapItem V))).map absItem
+        = (absMap m).items.map (fun e => { e with slot := e.slot % p }) := by
+      simp only [absMap, List.map_map]
+      apply List.map_congr_left
+      intro e he
+      exact absItem_mod e (hs e he) p
+    have hsorted : (liftSorter sorter (m.items.arr.map (fun e => ({ e with slot := e.slot % (p : Int) } : S_mapItem V)))).map absItem
+        = sorter ((absMap m).items.map (fun e => { e with slot := e.slot % p })) := by
+      simp only [liftSorter, List.map_map, hitems1]
+      rw [← hitems1]
+      simp [Function.comp_def]
+    have hgm : ∀ a : Int, 0 ≤ a → goMod .u32 a (wrap .u32 (p : Int)) = .ok (a % (p : Int)) := by
+      intro a ha
+      have wS : wrap .u32 (p : Int) = (p : Int) := wrapU32_id _ (by omega) (by omega)
+      have hS : ¬ ((p : Nat) : Int) = 0 := by omega
+      rw [wS]
+      simp only [goMod, hS, if_false]
+      rw [Int.tmod_eq_emod_of_nonneg ha]
+      have := Int.emod_lt_of_pos a (show (0 : Int) < (p : Int) by omega)
+      have := Int.emod_nonneg a hS
+      rw [wrapU32_id _ (by omega) (by omega)]
+    have hRHS : outOf (SMap.makeHashtable sorter (absMap m)) =
+        finishOut m.data.arr (sorter ((absMap m).items.map (fun e => { e with slot := e.slot % p }))) htA.spare.toArray
+          (SMap.fillFirst (sorter ((absMap m).items.map (fun e => { e with slot := e.slot % p }))) 0
+            (Array.replicate p (-1))) := by
+      have hsz0 : (if ((absMap m).ht ++ (absMap m).spare).size < p then Array.replicate p (0 : Int)
+            else ((absMap m).ht ++ (absMap m).spare).extract 0 p).size = p := by
+        rw [← hA1]; simp [hAl]
+      simp only [SMap.makeHashtable, hlen, h2, hp32, hpz, if_false, hsz0, ← hA2]
+      cases SMap.fillFirst (sorter ((absMap m).items.map (fun e => { e with slot := e.slot % p }))) 0
+          (Array.replicate p (-1)) <;> simp [outOf, absMap, finishOut]
+    rw [hRHS]
+    rcases hfacts with ⟨c, hm⟩ | ⟨c, hm⟩ <;>
+    ( simp only [StrMap_makeHashtable, hsl, h1, wp, c, hm, Out.bind_eq, Out.bind_ok, Out.pure_eq, decide_true, decide_false,
+        if_true, if_false, Bool.false_eq_true]
+      -- first loop
+      refine lift_bind_ok (mh_loop1 p _ ?_ ?_ m.items.arr [] 0 _ rfl (by simp) hs) ?_
+      · intro i m; simp [StrMap_makeHashtable_loop1]
+      · intro x rest i m e hsg he
+        have hss := fun v => sset_of_sget m.items i e v hsg
+        simp [StrMap_makeHashtable_loop1, hsg, hgm _ he, hss]
+      -- second loop
+      refine lift_bind_ok (mh_loop2 (slen htA) _ ?_ ?_ fuel htA.arr 0 _ 0 rfl rfl (by simp) (by omega) (by omega)) ?_
+      · intro f m i hl h0 hc hb
+        have hi0 : ¬ (i < 0 ∨ i ≥ slen m.hashtable) := by omega
+        have hi1 : ¬ (i < 0 ∨ slen htA ≤ i) := by omega
+        have w : wrap .i64 (i + 1) = i + 1 := wrap64 _ (by omega) (by omega)
+        simp [StrMap_makeHashtable_loop2, hl, hc, sset, hi1, w]
+      · intro f m i hl hc
+        simp [StrMap_makeHashtable_loop2, hl, hc]
+      -- third loop and the return
+      refine (mh_finish (fun a => rfl)
+        (mh_loop3 _ ?_ ?_ (liftSorter sorter (m.items.arr.map (fun e => ({ e with slot := e.slot % (p : Int) } : S_mapItem V))))
+          [] 0 _ rfl ?_ ?_)).trans ?_
+      · intro i m; simp [StrMap_makeHashtable_loop3]
+      · intro x rest i m e hsg he
+        cases hsh : sget m.hashtable e.slot with
+        | ok c =>
+          have hss := fun v => sset_of_sget m.hashtable e.slot c v hsh
+          by_cases hc : c < 0 <;> simp [StrMap_makeHashtable_loop3, hsg, hsh, hc, hss]
+        | panic w => simp [StrMap_makeHashtable_loop3, hsg, hsh]
+        | oob => simp [StrMap_makeHashtable_loop3, hsg, hsh]
+        | err x => exact nomatch x
+      · simp [sortSl]
+      · intro e he
+        simp only [liftSorter, List.mem_map] at he
+        obtain ⟨x, _, rfl⟩ := he
+        simp [repItem]
+      · simp [sortSl, hsorted, hAl] )
+  · simp [StrMap_makeHashtable, SMap.makeHashtable, hlen, hsl, h1, h2, liftG, outOf]
+
+/-! ## LoadFromSlice -/
+
+/-- total length of the keys -/
+def totalLen : List Bytes → Nat
+  | [] => 0
+  | k :: r => k.length + totalLen r
+
+/-- first loop (the size check): for ANY function `L` that returns the error at the first over-long key and otherwise
+    adds the key's length -/
+theorem lfs_loop1 (m : S_StrMap V) (L : List Bytes → Int → GM (LoopR (S_StrMap V × SErr) Int))
+    (hnil : ∀ sz, L [] sz = .ok (.done sz))
+    (hbig : ∀ k rest sz, k.length > SMap.maxU32 → L (k :: rest) sz = .ok (.ret (m, SErr.new "key too large")))
+    (hsmall : ∀ k rest sz, ¬ k.length > SMap.maxU32 → L (k :: rest) sz = L rest (wrap .i64 (sz + llen k))) :
+    ∀ (kk : List Bytes) (sz : Int), 0 ≤ sz → sz + (totalLen kk : Int) < 4611686018427387904 →
+      L kk sz = if SMap.anyKeyTooLarge kk then .ok (.ret (m, SErr.new "key too large"))
+                else .ok (.done (sz + (totalLen kk : Int))) := by
+  intro kk
+  induction kk with
+  | nil => intro sz _ _; simp [hnil, SMap.anyKeyTooLarge, totalLen]
+  | cons k rest ih =>
+    intro sz h0 hb
+    simp only [totalLen] at hb
+    by_cases hk : k.length > SMap.maxU32
+    · simp [hbig k rest sz hk, SMap.anyKeyTooLarge, hk]
+    · have w : wrap .i64 (sz + llen k) = sz + (k.length : Int) := by
+        unfold llen; exact wrap64 _ (by omega) (by omega)
+      rw [hsmall k rest sz hk, w, ih _ (by omega) (by omega)]
+      have : SMap.anyKeyTooLarge (k :: rest) = SMap.anyKeyTooLarge rest := by
+        simp [SMap.anyKeyTooLarge, hk]
+      simp only [this, totalLen]
+      split <;> simp <;> omega
+
+/-- second loop (the appends): for ANY function `L` that appends the item and the key's bytes -/
+theorem lfs_loop2 (h : Bytes → Nat) (vv : List V) (L : List Bytes → Int → S_StrMap V → GM (S_StrMap V))
+    (hnil : ∀ i m, L [] i m = .ok m)
+    (hcons : ∀ k rest (i : Int) m v, lget vv i = .ok v →
+      L (k :: rest) i m = L rest (i + 1)
+        { m with items := sappend m.items ⟨slen m.data, wrap .u32 (llen k), wrap .u32 (hashStr h k), v⟩,
+                 data := sappendAll m.data k }) :
+    ∀ (kk : List Bytes) (pre vs : List V) (i : Int) (m : S_StrMap V), i = (pre.length : Int) → vv = pre ++ vs →
+      kk.length = vs.length →
+      ∃ m', L kk i m = .ok m' ∧
+        m'.items.arr = m.items.arr ++ (SMap.appendLoop h (kk.zip vs) m.data.arr.length).2.map repItem ∧
+        m'.data.arr = m.data.arr ++ (SMap.appendLoop h (kk.zip vs) m.data.arr.length).1 ∧
+        m'.hashtable = m.hashtable := by
+  intro kk
+  induction kk with
+  | nil => intro pre vs i m _ _ _; exact ⟨m, hnil i m, by simp [SMap.appendLoop], by simp [SMap.appendLoop], rfl⟩
+  | cons k rest ih =>
+    intro pre vs i m hi hv hl
+    cases vs with
+    | nil => simp at hl
+    | cons v vs =>
+      subst hi
+      have hg : lget vv (pre.length : Int) = .ok v := by
+        have : ¬ ((pre.length : Nat) : Int) < 0 := by omega
+        simp [lget, this, hv]
+      rw [hcons k rest _ m v hg]
+      obtain ⟨m', h1, h2, h3, h4⟩ := ih (pre ++ [v]) vs (((pre.length : Nat) : Int) + 1) _ (by simp) (by simp [hv])
+        (by simpa using hl)
+      refine ⟨m', h1, ?_, ?_, ?_⟩
+      · rw [h2]
+        simp only [sappend, sappendAll, List.zip_cons_cons, SMap.appendLoop, List.map_cons, List.length_append,
+          List.append_assoc, List.singleton_append]
+        congr 2
+        simp only [repItem, slen]
+        congr 1
+        all_goals first | exact wrapU32_hash h k | (rw [wrapU32]; unfold llen SMap.two32; omega) | rfl
+      · rw [h3]
+        simp [sappendAll, SMap.appendLoop]
+      · rw [h4]
+
+/-- errors of the loaders, by their text -/
+def errOf (e : SErr) : Out SMap.LErr (SMap.StrMap V) :=
+  match e with
+  | .nil => .panic "nil error"
+  | .new t => if t = SMap.LErr.kvLen.msg then .err .kvLen
+              else if t = SMap.LErr.keyTooLarge.msg then .err .keyTooLarge else .panic t
+
+/-- outcome of `LoadFromSlice`: the loaded map, or the model's error for the returned Go error -/
+def absLoad : GM (S_StrMap V × SErr) → Out SMap.LErr (SMap.StrMap V)
+  | .ok (m, .nil) => .ok (absMap m)
+  | .ok (_, .new t) => errOf (.new t)
+  | .panic w => .panic w
+  | .oob => .oob
+  | .err e => nomatch e
+
+theorem absLoad_bind_congr {α : Type} {x y : GM α} {K : α → GM (S_StrMap V × SErr)} {R : Out SMap.LErr (SMap.StrMap V)}
+    (hxy : x = y) (hk : absLoad (y.bind K) = R) : absLoad (x.bind K) = R := by
+  subst hxy; exact hk
+
+theorem absLoad_bind_ex {α : Type} {x : GM α} {K : α → GM (S_StrMap V × SErr)} {R : Out SMap.LErr (SMap.StrMap V)}
+    {P : α → Prop} (hx : ∃ a, x = .ok a ∧ P a) (hk : ∀ a, P a → absLoad (K a) = R) : absLoad (x.bind K) = R := by
+  obtain ⟨a, rfl, hp⟩ := hx
+  simpa using hk a hp
+
+theorem absLoad_ret (x : GM (S_StrMap V)) : absLoad (x.bind fun t => .ok (t, SErr.nil)) = liftG absMap x := by
+  cases x with
+  | ok a => simp [absLoad, liftG]
+  | panic w => simp [absLoad, liftG]
+  | oob => simp [absLoad, liftG]
+  | err e => exact nomatch e
+
+theorem items_repItem_slot (l : List (SMap.Item V)) : ∀ e ∈ l.map repItem, 0 ≤ (e : S_mapItem V).slot := by
+  intro e he
+  simp only [List.mem_map] at he
+  obtain ⟨x, _, rfl⟩ := he
+  simp [repItem]
+
+/-- the two error returns of `LoadFromSlice` ("kv len not match", "key too large" for the first over-long key, checked
+    before anything is reset) are the model's, for EVERY receiver state, hash and sorter. The success path
+    (`lfs_loop2` + `makeHashtable_eq`) is not composed yet. -/
+theorem LoadFromSlice_err_eq (zV : V) (h : Bytes → Nat) (sorter : List (SMap.Item V) → List (SMap.Item V)) (fuel : Nat)
+    (m : S_StrMap V) (kk : List Bytes) (vv : List V) (hb : totalLen kk < 4611686018427387904)
+    (herr : kk.length ≠ vv.length ∨ SMap.anyKeyTooLarge kk = true) :
+    absLoad (StrMap_LoadFromSlice zV h (liftSorter sorter) fuel m kk vv) =
+      outOf (SMap.loadFromSlice h sorter (absMap m) kk vv) := by
+  unfold SMap.loadFromSlice
+  by_cases hlen : kk.length = vv.length
+  · have hlen' : llen kk = llen vv := by unfold llen; omega
+    have hbig : SMap.anyKeyTooLarge kk = true := by
+      rcases herr with c | c
+      · exact absurd hlen c
+      · exact c
+    simp only [StrMap_LoadFromSlice, hlen', hlen, ne_eq, not_true_eq_false, decide_false, if_false, hbig, if_true,
+      Bool.false_eq_true, Out.bind_eq]
+    have hl1 := fun L a b c => lfs_loop1 m L a b c kk 0 (by omega) (by omega)
+    simp only [hbig, if_true] at hl1
+    refine absLoad_bind_congr (hl1 _ ?_ ?_ ?_) ?_
+    · intro sz; simp [StrMap_LoadFromSlice_loop1]
+    · intro k rest sz hk
+      have : llen k > 4294967295 := by unfold llen; unfold SMap.maxU32 at hk; omega
+      simp [StrMap_LoadFromSlice_loop1, this]
+    · intro k rest sz hk
+      have : ¬ llen k > 4294967295 := by unfold llen; unfold SMap.maxU32 at hk; omega
+      simp [StrMap_LoadFromSlice_loop1, this]
+    · simp [absLoad, errOf, outOf, SMap.LErr.msg]
+  · have hlen' : ¬ llen kk = llen vv := by unfold llen; omega
+    simp [StrMap_LoadFromSlice, hlen, hlen', absLoad, errOf, outOf, SMap.LErr.msg]
 
 /-! ## closed examples: the GENERATED LoadFromSlice / Get / Item / Len run on a map all of whose keys collide -/
 
